@@ -215,13 +215,23 @@ def r4(ctx, facts):
 
 
 def r5(ctx, facts):
-    r = ctx.rule("R5", "partition-key components are taken in partition-key order, whatever the bind-marker order", floor=5)
+    r = ctx.rule("R5", "partition-key components are taken in partition-key order, whatever the bind-marker order", floor=6)
     b = facts.one(r"^scylla_cql::frame::response::result::deser_prepared_metadata$")
     df = df_of(b, facts)
-    aggs = [(bb, s) for bb in b.live_blocks for s in b.stmts(bb) if s[0] == "A" and s[2][0] == "agg" and s[2][1][0] == "adt" and s[2][1][1].endswith("::PartitionKeyIndex")]
+    outer = b
+    fam = [b] + [facts.body(p) for p in facts.bodies.keys() if p.startswith(b.path + "::{closure")]
+    # any sorting in the parser must act on PartitionKeyIndex values (position already attached), never on the raw marker
+    # indexes: sorting those first and numbering afterwards turns `sequence` into the marker rank
+    for fb in fam:
+        for bb2, c in fb.calls():
+            if bb2 in fb.live_blocks and (c.name or "").split("::")[-1].startswith("sort"):
+                ty = fb.local_ty(c.args[0][1][0]) if c.args and c.args[0][0] in ("c", "m") else ""
+                r.instance("sort-after-positions-attached:%s" % (c.name or "").split("::")[-1], "PartitionKeyIndex" in (ty or ""),
+                           "deser_prepared_metadata sorts %s: the partition-key positions must be attached (PartitionKeyIndex.sequence = order on the wire) before anything is sorted" % ty, c.span)
+    aggs = [(fb, bb, s) for fb in fam for bb in fb.live_blocks for s in fb.stmts(bb) if s[0] == "A" and s[2][0] == "agg" and s[2][1][0] == "adt" and s[2][1][1].endswith("::PartitionKeyIndex")]
     if len(aggs) != 1:
-        raise AnchorLost("deser_prepared_metadata: PartitionKeyIndex aggregate not found")
-    bb, s = aggs[0]
+        raise AnchorLost("deser_prepared_metadata: expected one PartitionKeyIndex aggregate, found %d" % len(aggs))
+    b, bb, s = aggs[0]
     fields = s[2][1][4]
     seq = s[2][2][fields.index("sequence")]
     idx = s[2][2][fields.index("index")]
@@ -230,6 +240,7 @@ def r5(ctx, facts):
     r.instance("sequence-is-loop-position", any(n.endswith("Iterator::next") for c in c_seq for n in c.names()) and not any((c.name or "").endswith("read_short") for c in c_seq),
                "PartitionKeyIndex.sequence must be the position within the partition key (loop counter), not a wire value", b.stmt_span(s))
     r.instance("index-is-wire-value", any((c.name or "").endswith("types::read_short") for c in c_idx), "PartitionKeyIndex.index is the bind-marker index read from the frame", b.stmt_span(s))
+    b = outer
     sort = [c for bb2, c in b.calls() if bb2 in b.live_blocks and (c.name or "").split("::")[-1] in ("sort_unstable_by_key", "sort_by_key")]
     oks = False
     if sort:
